@@ -61,3 +61,72 @@ def same_result(impl, model, tol=Fr(1, 10 ** 9)):
             return False, "column (%s, %s) has no partner among the model's columns %s" % (float(x), float(y), [(float(u), float(v)) for u, v in b][:6])
         free.pop(j)
     return True, ""
+
+
+# ------------------------------------------------------------------------------------------------ round-level trace
+def ask_trace(drv, cfg, n1, n2, bits=64):
+    return drv.ask("all_intersections_trace", 1 if cfg == "pure" else 0, bits, [Fr(x) for x in consts(cfg)], n1, n2)
+
+
+def python_trace(arr1, arr2):
+    """run the pure-Python all_intersections with intersect_one_round wrapped: list of rounds
+    ([(kind1, start1, end1, kind2, start2, end2), ...], [(s, t), ...] accumulated after the round | None if it raised),
+    and the outcome ("ok", columns, flag) | ("exc", name)"""
+    from bezier.hazmat import geometric_intersection as GI
+    log = []
+    orig = GI.intersect_one_round
+
+    def info(c):
+        if isinstance(c, GI.Linearization):
+            return (1, Fr(float(c.curve.start)), Fr(float(c.curve.end)))
+        return (0, Fr(float(c.start)), Fr(float(c.end)))
+
+    def wrapped(candidates, intersections):
+        entry = [[info(a) + info(b) for a, b in candidates], None]
+        log.append(entry)
+        out = orig(candidates, intersections)
+        entry[1] = [(Fr(float(s)), Fr(float(t))) for s, t in intersections]
+        return out
+
+    GI.intersect_one_round = wrapped
+    try:
+        try:
+            out, flag = GI.all_intersections(arr1, arr2)
+            res = ("ok", [(float(out[0, k]), float(out[1, k])) for k in range(out.shape[1])], bool(flag))
+        except Exception as e:     # noqa: BLE001
+            res = ("exc", type(e).__name__)
+    finally:
+        GI.intersect_one_round = orig
+    return log, res
+
+
+def compare_trace(pylog, reply, tol=Fr(1, 2 ** 30)):
+    """None if the model's rounds equal the recorded ones (candidate lists as ordered lists of
+    (kind, start, stop) pairs - the interval end points are dyadic and exact; accumulated parameters within tol),
+    else (round index, description)"""
+    st, val = reply
+    if st != "ok":
+        return (-1, "model reply %s %s" % (st, val))
+    mlog = val[1]
+    if len(mlog) != len(pylog):
+        return (min(len(mlog), len(pylog)), "number of rounds: impl %d model %d" % (len(pylog), len(mlog)))
+    for k, ((pc, pacc), mr) in enumerate(zip(pylog, mlog)):
+        mc = [tuple(Fr(x) for x in row) for row in mr[0]]
+        pcn = [tuple(Fr(x) for x in row) for row in pc]
+        if mc != pcn:
+            if sorted(mc) == sorted(pcn):
+                return (k, "round %d: same %d candidate pairs in a different order" % (k, len(mc)))
+            only_i = [c for c in pcn if c not in mc][:2]
+            only_m = [c for c in mc if c not in pcn][:2]
+            return (k, "round %d: candidates differ (impl %d, model %d); only impl %s; only model %s" %
+                    (k, len(pcn), len(mc), [[float(x) for x in c] for c in only_i], [[float(x) for x in c] for c in only_m]))
+        macc = mr[1]
+        m_raised = (len(macc) == 1 and len(macc[0]) == 0)
+        if (pacc is None) != m_raised:
+            return (k, "round %d: raised in %s only" % (k, "impl" if pacc is None else "model"))
+        if pacc is not None:
+            ma = [(Fr(p[0]), Fr(p[1])) for p in macc]
+            if len(ma) != len(pacc) or any(abs(a[0] - b[0]) > tol or abs(a[1] - b[1]) > tol for a, b in zip(pacc, ma)):
+                return (k, "round %d: accumulated intersections impl %s model %s" %
+                        (k, [(float(a), float(b)) for a, b in pacc], [(float(a), float(b)) for a, b in ma]))
+    return None
